@@ -1063,3 +1063,285 @@ def all_container_histories(max_len: int):
     for ln in range(1, max_len + 1):
         for combo in itertools.product(alpha, repeat=ln):
             yield prefix + [list(o) for o in combo]
+
+
+# --------------------------------------------------------------------------- oracle-only stream (ops outside the Coq model)
+
+def gen_oracle_only(rng, length: int) -> list[dict]:
+    """History mixing model ops with calls the model does not cover (slices, sort, dict extras, Graph.sort,
+    convenience functions).  Stops at the first op that may hit a defect site (site_of != None) or that fails an oracle."""
+    g = Gen(rng, use_functions=True, site_rate=0.0)
+    steps = []
+    ob = observe(g.im)
+    for _ in range(length):
+        im = g.im
+        graphs = g._graphs()  # noqa: SLF001
+        nv = len(im.vals)
+        op = None
+        if graphs and nv >= 3 and rng.random() < 0.35:
+            gi = rng.choice(graphs)
+            G = im.graphs[gi]
+            kind = rng.choice(["KIn", "KOut"])
+            lst = G.inputs if kind == "KIn" else G.outputs
+            ok = g._ok_for(kind, gi)  # noqa: SLF001
+            bad = g._bad_for(kind, gi)  # noqa: SLF001
+            named_ok = [v for v in g._vals(lambda v: (v._graph is None or v._graph is G) and v.producer() is None and v.name)]  # noqa: SLF001
+            c = rng.choice(["setslice", "delslice", "sort", "popitem", "update", "setdefault", "ior", "gsort",
+                            "conv_rau", "conv_rename", "conv_rnv", "register"])
+            if c == "setslice" and ok:
+                a = rng.randrange(len(lst) + 1)
+                b = rng.randrange(a, len(lst) + 1)
+                vs = [rng.choice(ok) for _ in range(rng.choice([0, 1, 2]))]
+                if bad and rng.random() < 0.3:
+                    vs.insert(rng.randrange(len(vs) + 1), rng.choice(bad))
+                op = ["X_IOSetSlice", kind, gi, a, b, vs]
+            elif c == "delslice":
+                a = rng.randrange(len(lst) + 1)
+                op = ["X_IODelSlice", kind, gi, a, rng.randrange(a, len(lst) + 1)]
+            elif c == "sort":
+                op = ["X_IOSort", kind, gi]
+            elif c == "popitem":
+                op = ["X_InitPopItem", gi]
+            elif c == "update" and named_ok:
+                op = ["X_InitUpdate", gi, rng.sample(named_ok, min(len(named_ok), 2))]
+            elif c == "setdefault" and named_ok:
+                v = rng.choice(named_ok)
+                op = ["X_InitSetDefault", gi, im.vals[v].name, v]
+            elif c == "ior" and named_ok:
+                op = ["X_InitIOr", gi, rng.sample(named_ok, 1)]
+            elif c == "gsort":
+                op = ["X_GSort", gi]
+            elif c == "conv_rau":
+                k = rng.choice([1, 2])
+                op = ["X_ConvReplaceAllUses", [rng.randrange(nv) for _ in range(k)], [rng.randrange(nv) for _ in range(k)],
+                      rng.random() < 0.7]
+            elif c == "conv_rename":
+                k = rng.choice([1, 2, 3])
+                op = ["X_ConvRenameValues", [rng.randrange(nv) for _ in range(k)], [rng.choice(KEYS) for _ in range(k)]]
+            elif c == "conv_rnv":
+                inside = g._nodes(lambda n: n.graph is G)  # noqa: SLF001
+                free = g._nodes(lambda n: n.graph is None)  # noqa: SLF001
+                if inside and free:
+                    old = rng.choice(inside)
+                    new = rng.choice(free)
+                    ov = [im.h(x, "v") for x in im.nodes[old].outputs][:1]
+                    nvv = [im.h(x, "v") for x in im.nodes[new].outputs][:1]
+                    if len(ov) == len(nvv):
+                        op = ["X_ConvReplaceNodesAndValues", gi, old, [old], [new], ov, nvv]
+            elif c == "register" and named_ok:
+                op = ["X_RegisterInitializer", gi, rng.choice(named_ok)]
+        if op is None:
+            op = g.next_op()
+        before = ob
+        outcome = im.execute(op)
+        ob = observe(im)
+        c01 = oracle_c01(ob)
+        c06 = oracle_c06(before, ob) if outcome != "ok" else []
+        steps.append({"op": op, "outcome": outcome, "hash": 0, "c01": c01, "c06": c06})
+        if c01 or c06 or site_of(op, outcome) is not None:
+            break
+    return steps
+
+
+# --------------------------------------------------------------------------- shrinking
+
+ALLOC = {"NewValue", "NewNode", "GraphNew", "NResizeOutputs"}
+
+
+def shrink_history(ops: list[list], which: str) -> list[list]:
+    """Greedy removal of non-allocating ops while the last remaining op still fails oracle `which`."""
+    def fails(cand):
+        try:
+            st = run_history(cand)["steps"]
+        except Exception:  # noqa: BLE001
+            return False
+        return bool(st) and len(st) == len(cand) and bool(st[-1][which])
+    cur = list(ops)
+    changed = True
+    while changed:
+        changed = False
+        for i in range(len(cur) - 2, -1, -1):
+            if cur[i][0] in ALLOC:
+                continue
+            cand = cur[:i] + cur[i + 1:]
+            if fails(cand):
+                cur, changed = cand, True
+    return cur
+
+
+# --------------------------------------------------------------------------- the check shared by C01 and C06
+
+TRUST = [
+    "Coq 8.16.1 kernel (coqc; vm_compute and primitive 63-bit integers in case files only)",
+    "harness/props/_core_ops.py: generator, executor (allocation-order registry), observation through public accessors, "
+    "flat encoding + hash mirrored in C01/Tie.v, Coq term printer",
+    "onnx_ir._core.frozenset rebound to an insertion-ordered set inside Graph.remove (iteration order of a frozenset of "
+    "nodes is address dependent)",
+    "modelled not verified: CPython dict insertion order (uses, initializers), collections.UserList/UserDict/Counter "
+    "inherited methods, tuple/list slicing",
+]
+
+
+def load_corpus(prop: str) -> list[list[list]]:
+    import json
+    import os
+    d = os.path.join(common.CORPUS, prop)
+    out = []
+    if os.path.isdir(d):
+        for fn in sorted(os.listdir(d)):
+            if fn.endswith(".json"):
+                with open(os.path.join(d, fn)) as f:
+                    out.append(json.load(f)["ops"])
+    return out
+
+
+def run_check(ck, which: str) -> None:  # noqa: C901, PLR0912, PLR0915
+    """which = 'c01' | 'c06': which oracle's failures this property reports."""
+    import json
+    import logging
+    logging.disable(logging.WARNING)
+    ck.trust(*TRUST)
+    ck.assumptions += ["onnx_ir.DEBUG is False (the _check_invariance hooks of the tracked lists are no-ops)",
+                       "values carry no const_value in modelled histories (Value.name also renames the backing tensor)"]
+    ck.coverage["rule"] = ("C01: histories on which at least one op mutates a relationship shared by two objects; "
+                           "C06: steps on which a call raises" if which == "c01" else
+                           "steps on which a public editing call raises (rejected edit)")
+    ck.coverage["ops_in_model"] = sorted({"NewValue", "NewNode", "GraphNew", "GAppend", "GExtend", "GInsertAfter", "GInsertBefore",
+                                          "NAppend", "NPrepend", "GRemove", "NReplaceInput", "NResizeInputs", "NResizeOutputs",
+                                          "VReplaceAllUses", "VSetName", "IOAppend", "IOExtend", "IOInsert", "IOPop", "IORemove",
+                                          "IOClear", "IOSetItem", "IODelItem", "IOIMul", "IOReverse", "InitSetItem", "InitDelItem",
+                                          "InitPop", "InitAdd", "InitClear", "Function forwards (routed through Function objects)"})
+    ck.coverage["ops_oracle_only"] = ["IOSetSlice", "IODelSlice", "IOSort", "InitPopItem", "InitUpdate", "InitSetDefault", "InitIOr",
+                                      "GSort", "GRegisterInitializer", "ConvReplaceAllUses", "ConvRenameValues",
+                                      "ConvReplaceNodesAndValues"]
+    ck.prove()
+    rng = ck.rng
+    known_keys = {k["key"] for k in ck._known if k.get("status") == "known"}  # noqa: SLF001
+    what = {k["key"]: k["what"] for k in ck._known}  # noqa: SLF001
+
+    # ---- 1. histories: corpus, random (valid + malformed streams), exhaustive small scope for the containers
+    hists: list[list[dict]] = []
+    tags: list[str] = []
+    for ops in load_corpus("C01") + load_corpus("C06"):
+        hists.append(run_history(ops)["steps"])
+        tags.append("corpus")
+    n_rand = 300 if not ck.thorough else 6000
+    for i in range(n_rand):
+        g = Gen(rng, use_functions=(i % 3 == 0), site_rate=(0.04 if i % 4 else 0.15))
+        hists.append(g.history(rng.randrange(5, 61 if not ck.thorough else 301))["steps"])
+        tags.append("random")
+    ex_len = 2 if not ck.thorough else 3
+    n_ex = 0
+    for ops in all_container_histories(ex_len):
+        if ex_len == 3 and len(ops) == 10 and rng.random() > 0.12:
+            continue
+        hists.append(run_history(ops)["steps"])
+        tags.append("exhaustive")
+        n_ex += 1
+    ck.coverage["exhaustive_container_histories"] = n_ex
+    for st in hists:
+        ck.count(len(st))
+        for s in st:
+            ck.hist("ops", s["op"][0])
+            ck.hist("outcomes", s["outcome"])
+            if s["outcome"] != "ok":
+                ck.hist("rejections", s["op"][0] + ":" + s["outcome"])
+                if which == "c06":
+                    ck.nontriv((s["op"], s["hash"]))
+        if which == "c01" and len(st) >= 5:
+            ck.nontriv([s["op"] for s in st])
+    for st in hists[:3]:
+        ck.sample({"ops": [s["op"] for s in st][:12], "outcomes": [s["outcome"] for s in st][:12]})
+
+    # ---- 2. the model inside Coq: outcome + observation hash after every op, first defect-site hit
+    chunks = [hists[i:i + 300] for i in range(0, len(hists), 300)]
+    results = ck.coq_eval_many([(f"cases_{i}", case_file(c)) for i, c in enumerate(chunks)], timeout=900)
+    verdicts: list[tuple[int | None, int | None]] = []
+    for (rc, out), c in zip(results, chunks):
+        if rc != 0:
+            raise RuntimeError("case file did not compile:\n" + out[-3000:])
+        v = parse_verdicts(out)
+        if len(v) != len(c):
+            raise RuntimeError(f"verdict count {len(v)} != cases {len(c)}")
+        verdicts += v
+    ck.coverage["traces_validated_against_impl"] = len(hists)
+    ck.coverage["histories_hitting_a_defect_site"] = sum(1 for _, k in verdicts if k is not None)
+    n_mis = 0
+    for st, (d, k), tag in zip(hists, verdicts, tags):
+        if d is not None:
+            n_mis += 1
+            if n_mis <= 3:
+                ops = [s["op"] for s in st]
+                rc, out = ck.coq_eval(model_obs_file(ops, d), f"diag_{n_mis}")
+                ck.broken("correspondence:core-heap-model",
+                          json.dumps({"stream": tag, "ops": ops[:d + 1], "diverging_step": d, "op": st[d]["op"],
+                                      "impl_outcome": st[d]["outcome"],
+                                      "impl_obs": flat(run_history(ops[:d + 1], stop_on_hit=False)["final"]),
+                                      "model": " ".join(out.split())[-1500:]}, default=str))
+    # ---- 3. oracle verdicts on the modelled histories
+    reported: set[str] = set()
+
+    def report(ops, idx, step, hit_step):
+        fails = step[which]
+        key = site_of(hit_step["op"], hit_step["outcome"]) if hit_step is not None else None
+        if key is not None and key in known_keys:
+            ck.known_finding(key, what[key])
+            return
+        sig = step["op"][0] + ":" + step["outcome"] + ":" + fails[0][:40]
+        if sig in reported:
+            return
+        reported.add(sig)
+        small = shrink_history(ops[:idx + 1], which)
+        fin = run_history(small)["steps"]
+        ck.violation({"kind": "oracle_" + which, "ops": small, "failing_op": small[-1],
+                      "outcome": fin[-1]["outcome"] if fin else None,
+                      "failures": (fin[-1][which] if fin else fails)[:6], "broken": ck.broken_items[:2]})
+
+    for st, (d, k) in zip(hists, verdicts):
+        ops = [s["op"] for s in st]
+        for i, s in enumerate(st):
+            if s[which]:
+                report(ops, i, s, st[k] if (k is not None and i >= k) else None)
+                break
+    # ---- 4. oracle-only stream
+    n_oo = 150 if not ck.thorough else 3000
+    for _ in range(n_oo):
+        st = gen_oracle_only(rng, rng.randrange(5, 41))
+        ck.count(len(st))
+        for s in st:
+            ck.hist("ops", s["op"][0])
+        if st and st[-1][which]:
+            report([s["op"] for s in st], len(st) - 1, st[-1], st[-1])
+    # ---- 5. known findings are replayed on every run
+    for kf in ck._known:  # noqa: SLF001
+        if kf.get("status") != "known":
+            continue
+        st = run_history(kf["witness"])["steps"]
+        if st and len(st) == len(kf["witness"]) and st[-1][which]:
+            ck.known_finding(kf["key"], kf["what"])
+        else:
+            ck.broken(f"known-finding-stale:{kf['key']}",
+                      "the recorded witness no longer fails on the implementation: the model (current_cfg in "
+                      "coq/theories/C01/Model.v) reproduces a defect the code no longer has")
+    # ---- 6. something broken, nothing found yet: search harder with the oracle
+    if ck.broken_items and not ck.violations:
+        for i in range(600 if not ck.thorough else 6000):
+            g = Gen(rng, use_functions=(i % 2 == 0), site_rate=0.0)
+            st = g.history(rng.randrange(5, 61))["steps"]
+            ck.count(len(st))
+            if st and st[-1][which] and site_of(st[-1]["op"], st[-1]["outcome"]) not in known_keys:
+                report([s["op"] for s in st], len(st) - 1, st[-1], None)
+                break
+
+
+def replay_file(rp: dict, which: str) -> int:
+    import json
+    ops = rp.get("ops")
+    if ops is None:
+        print("replay names a broken obligation/correspondence, no concrete history:",
+              json.dumps(rp.get("broken"), indent=1)[:3000])
+        return 1
+    st = run_history(ops, stop_on_hit=False)["steps"]
+    bad = [(i, s["op"], s["outcome"], s[which]) for i, s in enumerate(st) if s[which]]
+    print(json.dumps({"ops": ops, "failures": bad[:5]}, indent=1, default=str))
+    return 1 if bad else 0
